@@ -2,6 +2,7 @@ from __future__ import annotations
 
 from pathlib import Path
 from string import Template
+from collections.abc import Callable
 from typing import ClassVar, Literal, cast
 
 import sqlglot
@@ -1124,7 +1125,9 @@ def _get_to_number_args(e: exp.ToNumber) -> tuple[exp.Expression | None, exp.Exp
     return _format, _precision, _scale
 
 
-def _to_decimal(expression: exp.Expression, cast_node: type[exp.Cast]) -> exp.Expression:
+def _to_decimal(
+    expression: exp.Expression, cast_node: type[exp.Cast], nested: Callable[[exp.Expression], exp.Expression]
+) -> exp.Expression:
     expressions: list[exp.Expression] = expression.expressions
 
     if len(expressions) > 1 and expressions[1].is_string:
@@ -1135,7 +1138,8 @@ def _to_decimal(expression: exp.Expression, cast_node: type[exp.Cast]) -> exp.Ex
     scale = expressions[2] if len(expressions) > 2 else exp.Literal(this="0", is_string=False)
 
     return cast_node(
-        this=expressions[0],
+        # transform() does not descend into a node it has replaced, so rewrite a nested call of the same kind here
+        this=expressions[0].transform(nested),
         to=exp.DataType(this=exp.DataType.Type.DECIMAL, expressions=[precision, scale], nested=False, prefix=False),
     )
 
@@ -1157,7 +1161,8 @@ def to_decimal(expression: exp.Expression) -> exp.Expression:
             scale = exp.Literal(this="0", is_string=False)
 
         return exp.Cast(
-            this=expression.this,
+            # transform() does not descend into a node it has replaced, so rewrite a nested call of the same kind here
+            this=expression.this.transform(to_decimal),
             to=exp.DataType(this=exp.DataType.Type.DECIMAL, expressions=[precision, scale], nested=False, prefix=False),
         )
 
@@ -1166,7 +1171,7 @@ def to_decimal(expression: exp.Expression) -> exp.Expression:
         and isinstance(expression.this, str)
         and expression.this.upper() in ["TO_DECIMAL", "TO_NUMERIC"]
     ):
-        return _to_decimal(expression, exp.Cast)
+        return _to_decimal(expression, exp.Cast, to_decimal)
 
     return expression
 
@@ -1181,7 +1186,7 @@ def try_to_decimal(expression: exp.Expression) -> exp.Expression:
         and isinstance(expression.this, str)
         and expression.this.upper() in ["TRY_TO_DECIMAL", "TRY_TO_NUMBER", "TRY_TO_NUMERIC"]
     ):
-        return _to_decimal(expression, exp.TryCast)
+        return _to_decimal(expression, exp.TryCast, try_to_decimal)
 
     return expression
 
